@@ -60,10 +60,35 @@ func (c GenCfg) float(r *prng.Rand) F {
 	return F(r.SmallFloat())
 }
 
+// canonNaN is the bit pattern the binary formats use for the ordinates of an
+// empty point.
+const canonNaN = 0x7ff8000000000000
+
 func (c GenCfg) coord(r *prng.Rand, l int) Coord {
 	out := make(Coord, Stride(l))
 	for i := range out {
 		out[i] = c.float(r)
+	}
+	if c.FloatMode == 1 && len(out) > 0 && r.Chance(0.04) {
+		// coordinates around the empty-point convention: every ordinate the
+		// canonical NaN; only X and Y; every ordinate a NaN of another payload
+		// or sign; all but the last the canonical NaN
+		switch r.Intn(4) {
+		case 0:
+			for i := range out {
+				out[i] = F(math.Float64frombits(canonNaN))
+			}
+		case 1:
+			out[0], out[1] = F(math.Float64frombits(canonNaN)), F(math.Float64frombits(canonNaN))
+		case 2:
+			for i := range out {
+				out[i] = F(math.Float64frombits([]uint64{0x7ff8000000000001, 0xfff8000000000000, 0x7ff4000000000000, canonNaN}[r.Intn(4)]))
+			}
+		case 3:
+			for i := range out[:len(out)-1] {
+				out[i] = F(math.Float64frombits(canonNaN))
+			}
+		}
 	}
 	return out
 }
